@@ -4,6 +4,12 @@ import json, os
 V = os.path.dirname(os.path.dirname(os.path.abspath(__file__)))
 CHECKS = {
  # id: (engine, technique, level text, level note, design ref)
+ "C04": ("E1-shape", "bounded-exhaustive enumeration of subtype-constraint expression trees executed on the real compiler vs. set-semantics + PER-visible fold reference",
+         "All subtype expressions with <=3 operands over a 32-operand alphabet (singles/ranges on {MIN,-3,0,2,5,9,MAX}) x {|,^,EXCEPT,ALL EXCEPT} x marker x 1..2 serial constraints x 6 constrainable types x {assignment, component, constrained parent, value-reference endpoints, named-number endpoints} (1.0 M cases thorough, 0.32 M quick) are compiled by the real compiler; the emitted value()/size()/Fixed*String bound is compared with (i) exact set semantics on a 19-point universe (soundness) and (ii) the interval fold under X.680 precedence (equality), plus marker<=>extensible. Complete inside the bound.",
+         "Reference: 150 lines of bit-set / interval algebra, self-tested against brute force at start-up; syn projection trusted. Endpoints outside the 7-point alphabet, >3 operands, parenthesised sub-expressions are not covered. Mixed-marker serial constraints accept either flag (X.680 G.4.2.3 ambiguity).", "§4 C04"),
+ "C06": ("E1-shape", "bounded-exhaustive enumeration of INTEGER bound pairs x contexts executed on the real compiler vs. width reference",
+         "All 1431 (lo,hi) pairs of the 53-point boundary set x marker x 11 contexts (assignment, component, OPTIONAL, CHOICE alternative, nested member, SEQUENCE OF / SET OF element, value, value of referenced type, DEFAULT, DEFAULT of referenced type) x literal in {lo,hi,mid}, plus serial and union pairs over a 9-point subset (75 k cases) are compiled; the emitted integer type token must contain the permitted hull, be fixed-width only for finite non-extensible constraints, and every emitted literal must equal the source value and fit its declared type.",
+         "Type-token -> range table and literal evaluator are trusted (self-tested); widths for constraints outside the boundary set follow by monotonicity of the comparison chains (small-scope argument, not a proof).", "§4 C06"),
  "C14": ("E1-shape", "bounded-exhaustive enumeration of ENUMERATED numbering patterns executed on the real compiler vs. X.680 §20 reference",
          "Every enumeration with <=5 root items and <=3 additions over {id, id(-1), id(0), id(1), id(2), id(5)} (2.4 M notations, thorough) is compiled by the real compiler and its discriminants, order, names, extension flags compared with a 40-line reference of X.680 §20.3-20.6; complete inside the bound, not sampled.",
          "Reference numbering function (self-tested on the X.680 examples) and the syn projection are trusted; numbers outside the 5-point alphabet and >8 items are not covered.", "§4 C14"),
